@@ -1,25 +1,34 @@
-"""C36 Front-end types agree with the IR it emits - the IR that is sent is the IR that was typed.
+"""C36 Front-end types agree with the IR it emits.
 
-The type an Expression reports is computed on the IR node it was built with.  Before sending, the front end may rebuild that IR:
-`ir.subst` / `IR.map_ir` (MatrixTable.aggregate_rows, matrixtable.py) call `node.copy(*new_children)` on every node.  If `copy`
-silently builds a different node (another class, children permuted, a rewritten child dropped, a child group cut), the IR that is
-sent no longer has the type (or meaning) the expression reported.  For every value-IR class (MRO resolved) the checker extracts
-the child list the constructor registers with `super().__init__(...)`, binds the constructor call(s) in `copy` to the constructor
-signature and follows each argument of `copy` (parameters, `*args` slices, zip comprehensions) to the child position it ends in:
+Four mechanisms by which the type the front end reports can differ from the type implied by the IR it sends, each decided from parsed
+source only (python `ast`; a small tokenizer + parser for the Scala `typ` members, engines/typerules.py):
 
-  R5  `copy` rebuilds the same class (or a base class of it) and puts its k-th argument back at child position k
-      - armed only for instances where the rebuilt node is actually constructed: if `copy` cannot be called with the registered
-        children, or the constructor's own @typecheck_method is certain to reject the misplaced argument, the front end raises
-        before anything is sent and the instance is printed as a diagnostic (INFO), not a violation.
+  R7  BINDER VARIABLES.  Wherever the expression front end creates a bound variable (`construct_variable(name, T)`, `construct_expr(ir.Ref(name, T),
+      T)`, `ir.Ref(name, T)`) and emits an IR node that binds `name` (StreamFold/StreamScan zero, Let/AggLet value, StreamMap/Filter/FlatMap/Zip
+      element, AggExplode, AggArrayPerElement, AggFold, ArraySort, NDArrayMap(2), StreamZipJoin(Producers), StreamAgg(Scan), TailLoop params), T must be
+      the type of the value the node binds to that name AT THE EMISSION, on every path.  The binder metadata (which parameter names the variable,
+      which child types it, in which children it is in scope) is extracted from renderable_bindings & co of the IR classes; the functions are
+      analysed by a path-sensitive def-use interpreter (engines/typerules.Flow): `x = coerce(x)` is a new definition, so a variable typed from the
+      old definition - and every callback result computed from it - must have been rebuilt after the re-assignment.  Calls into same-class /
+      base-class methods (`_ir_lambda_method`), module helpers, closures and lambdas are followed, so a refactor into a helper is seen through.
+  R9  a Ref built for a bound variable carries the same type as the expression wrapping it.
+  R8  RELATIONAL TYPING RULES, PYTHON vs ENGINE.  `_compute_type` of every Table / Matrix IR node and the Scala `typ` of the same case class are
+      translated into one normal form over ordered struct operations (concat, key-select, drop, rename, insert, per-component projections,
+      `copy(key = ...)`) in which row_type is NOT interchangeable with key_type ++ value_type; every component (global, row, key, col, entry) of
+      every node that both sides translate is compared, under every valuation of the node flags (`product`, `joinType`).  Untranslated
+      components are listed in the evidence, never reported.  Python's deep type check re-runs the same rule, so only this comparison sees a
+      front-end rule that drifted from the engine's.
+  R10 the python struct primitives those rules are written with keep the field order the algebra (and TStruct.scala) assume.
+  R5  REBUILD PATH.  `ir.subst` / `IR.map_ir` (MatrixTable.aggregate_rows) call `node.copy(*new_children)` on every node; copy must rebuild the
+      same class (or a base class) and put its k-th argument back at child position k - armed only where the rebuilt node is actually constructed
+      (if the constructor's own @typecheck_method is certain to reject the misplaced argument the instance is a diagnostic).
 
 Diagnostics (INFO, never violations - see _Diag):
-  R1-R3  environments / flag passed by `_compute_type` to each child (consulted only under deep_typecheck=True, which nothing in
-         the repository enables: grep over *.py, *.cfg, *.toml, *.ini, *.yaml, *.sh finds no use outside hail/ir itself)
-  R4     ttable/tmatrix env methods: the typed branch is read only by those environments
-  R6     copy arity / constructor signature mismatches (map_ir raises TypeError)
-  children that `_compute_type` never types (typed lazily by `.typ`)
-Does not decide: the typing rules themselves (return types), `_eq`, `_handle_randomness`, whether copy restores non-child
-attributes, literal typing (C32).
+  R1-R3  environments / flag passed by `_compute_type` to each child (consulted only under deep_typecheck=True, which nothing in the repository
+         enables), R4 ttable/tmatrix env methods, R6 copy arity / constructor signature mismatches (map_ir raises TypeError), children that
+         `_compute_type` never types.
+Does not decide: typing rules of value-IR nodes (return types), BlockMatrix shape rules, relational binders of table.py (TableMapPartitions /
+TableGen names), `_eq`, `_handle_randomness`, literal typing (C32), requiredness (not represented in python types).
 """
 from __future__ import annotations
 
@@ -28,18 +37,22 @@ from typing import Dict, FrozenSet, List, Optional, Sequence, Set, Tuple
 
 from engines import irclasses as ic
 from engines import pyfacts as pf
+from engines import typerules as tr
 from engines.common import AnalysisError, Ctx
 
 META = dict(
     category='other',
-    text='Class-table check of the rebuild path (IR.map_ir / ir.subst -> copy) for all value-IR classes: constructor child layouts and the '
-         'constructor calls inside copy are bound symbolically and every copy argument is followed to the child position it ends in. A necessary '
-         'condition for "the IR sent is the IR whose type was reported"; the typing rules themselves are not decided, hence "other".',
-    note='Trusted: CPython ast; engines/irclasses.py. Environment handling in _compute_type (design rules "typed exactly once under '
-         '_env_bind(env, self.bindings(i))") is analysed but only reported as INFO: IR.compute_type consults env only when deep_typecheck=True and no '
-         'in-repo caller, test, flag or environment variable enables it, so those clauses cannot affect behaviour. Likewise copy defects that make '
-         'map_ir raise are INFO. Not decided: return types, _eq, _handle_randomness, non-child attributes in copy.',
-    technique='static analysis: class table + constructor/copy signature binding + symbolic evaluation of environment expressions (diagnostics)',
+    text='Static comparison of what the front end reports with what it emits, on four fronts: (R7/R9) path-sensitive def-use analysis of every '
+         'binder-emitting function of hail/expr: the type a bound variable is created with equals the type of the value the emitted IR binds to that name '
+         '(binder metadata extracted from the IR classes); (R8/R10) the python _compute_type of every Table/Matrix IR node and the Scala typ of the same node '
+         'are translated to one normal form over ordered struct operations and compared per component; (R5) the rebuild path map_ir/subst -> copy puts '
+         'every child back in place. Necessary conditions; typing rules of value-IR nodes are not decided, hence "other".',
+    note='Trusted: CPython ast; engines/irclasses.py, engines/typerules.py (own Scala subset parser, fail-closed: untranslated components are listed, never '
+         'reported). Assumptions are printed in the evidence (fresh-name inserts, joinKey = key length, X._ir identified with X, element-type preserving '
+         'conversions, ordered semantics of TStruct.scala primitives). Environment handling in _compute_type (R1-R4) and crashing copies (R6) are INFO only: '
+         'they cannot make a reported type differ from the IR sent.',
+    technique='static analysis: class table + binder metadata extraction + path-sensitive def-use interpretation with helper inlining; cross-language '
+              'normal-form comparison of typing rules (python ast vs parsed Scala subset); constructor/copy signature binding',
     design_ref='DESIGN.md §3 C36',
 )
 
@@ -617,9 +630,93 @@ def check_copy(ctx: Ctx, t: ic.Table) -> None:
     d.finish('copy')
 
 
+# ---------------------------------------------------------------------------------------------------------------------------
+# R7 / R9: binder variables are typed from the value the emitted node binds them to
+# ---------------------------------------------------------------------------------------------------------------------------
+
+def check_binders(ctx: Ctx, t: ic.Table) -> None:
+    results, notes, stats = tr.analyse_binders(t)
+    ctx.unit('binder_ir_classes', stats['binder_classes'])
+    ctx.unit('binder_root_functions', stats['roots'])
+    ctx.unit('expr_files', stats['files'])
+    undecided: List[str] = []
+    for n in notes:
+        ctx.info(f'binder table: {n}')
+    for g in stats['roots_given_up']:
+        ctx.info(f'[R7 not decided] {g}')
+        undecided.append(g)
+    for key, r in sorted(results.items()):
+        rule = 'R9' if key.endswith('::Ref/construct_expr') else 'R7'
+        if r.bad:
+            ctx.bad(rule, key, r.bad[0] + (f' (+{len(r.bad) - 1} more path(s))' if len(r.bad) > 1 else ''), r.file, r.line)
+        elif r.ok and not r.undecided:
+            ctx.ok(rule, key, {'paths_checked': r.ok, 'paths_without_reference': r.unref})
+        elif r.undecided:
+            undecided.append(f'{key}: {r.undecided[0]}')
+            ctx.info(f'[{rule} not decided] {key}: {r.undecided[0]}')
+        else:
+            undecided.append(f'{key}: the bound name is never referenced by a variable created in this function')
+    ctx.extra_cov['binder_sites_not_decided'] = undecided
+
+
+# ---------------------------------------------------------------------------------------------------------------------------
+# R8: python _compute_type vs scala typ for the relational nodes
+# ---------------------------------------------------------------------------------------------------------------------------
+
+# node classes that exist on one side only, each with the reason why that is not a typing disagreement
+PYTHON_ONLY = {
+    'JavaTable': 'handle to a table that already lives in the backend (its type was reported by the backend); rendered as a reference',
+}
+
+
+def check_relational(ctx: Ctx, t: ic.Table) -> None:
+    results, one_sided = tr.compare_relational(t)
+    for o in one_sided:
+        name = o.split(' ')[0]
+        if '(python only)' in o and name not in PYTHON_ONLY:
+            raise AnalysisError(f'IR node {name} exists only in the python front end: there is no engine typing rule to compare its _compute_type with')
+        ctx.info(f'relational node on one side only: {o}' + (f' - {PYTHON_ONLY[name]}' if name in PYTHON_ONLY else ' - never sent by the front end'))
+    untranslated: List[str] = []
+    n_nodes = 0
+    for res in results:
+        if res.skipped:
+            untranslated.append(f'{res.node}: {res.skipped}')
+            continue
+        n_nodes += 1
+        by_comp: Dict[str, List[Tuple[str, str, str, Dict[str, bool]]]] = {}
+        for comp, st, a, b, val in res.components:
+            by_comp.setdefault(comp, []).append((st, a, b, val))
+        for comp, rows in by_comp.items():
+            uniform = len({(st, a, b) for st, a, b, _ in rows}) == 1
+            for st, a, b, val in (rows[:1] if uniform else rows):
+                suffix = '' if uniform or not val else ' [' + ', '.join(f'{k}={v}' for k, v in sorted(val.items())) + ']'
+                cons = f'{res.py_key}::{comp}{suffix}'
+                if st == 'skip':
+                    untranslated.append(f'{res.node}.{comp}{suffix}: {a or b}')
+                elif st == 'ok':
+                    ctx.ok('R8', cons, {'normal_form': a})
+                else:
+                    ctx.bad('R8', cons,
+                            f'the front end types the `{comp}` of {res.node} as  {a}  but the engine ({res.sc_where}) types it as  {b}' + suffix +
+                            f'; {tr.witness(a, b)}. Everything derived from the node (Table.row.dtype, field order, result decoding) uses the front-end type',
+                            res.file, res.line)
+        for n in (res.notes if any(st != 'skip' for _, st, _, _, _ in res.components) else []):
+            ctx.info(f'{res.node}: constructor parameter matched by position: {n}')
+    for name, holds, detail in tr.struct_primitive_checks():
+        ctx.check(holds, 'R10', f'{tr.TYPES_PY}::tstruct.{name}', f'tstruct.{name} no longer has the ordered semantics the typing rules (and the engine) rely on: {detail}. '
+                  f'Every _compute_type built on it (key_type / value_type / joins / renames) reports a field order the engine does not produce',
+                  pf.load(tr.TYPES_PY).path, 0, detail=detail)
+    ctx.unit('relational_nodes_compared', n_nodes)
+    ctx.extra_cov['relational_untranslated'] = untranslated
+    for u in untranslated:
+        ctx.info(f'[R8 not compared] {u}')
+
+
 def run(ctx: Ctx) -> None:
-    ctx.explanation = ('Constructor/copy signature binding for the rebuild path used by map_ir/subst: every copy argument is followed to the child '
-                       'position it is put back at. Environment handling of _compute_type is analysed for diagnostics only (deep_typecheck-only).')
+    ctx.explanation = ('R7/R9: def-use interpretation of every binder-emitting front-end function against the binder metadata of the IR classes. '
+                       'R8/R10: python _compute_type vs scala typ of each relational node in a common ordered-struct normal form. '
+                       'R5: constructor/copy signature binding for the rebuild path used by map_ir/subst. '
+                       'Environment handling of _compute_type is analysed for diagnostics only (deep_typecheck-only).')
     ctx.rule('R5', 'copy rebuilds the same class with argument k back at child position k (instances where the rebuilt IR is sent without an exception)', 95)
     ctx.assume('IR.compute_type(env, agg_env, deep_typecheck) consults env only when deep_typecheck is true (Ref._compute_type); R1-R3 are about that mode')
     ctx.assume('IR.map_ir passes all children positionally to copy and replaces only value-IR children (base_ir.IR.map_ir)')
@@ -630,3 +727,20 @@ def run(ctx: Ctx) -> None:
     check_typing(ctx, t, envs)
     check_env_methods(ctx, envs)
     check_copy(ctx, t)
+    ctx.rule('R7', 'every variable created for a binder IR node (fold/scan accumulator, map/filter/zip element, let/bind value, agg explode, loop parameter) '
+                   'is typed, on every path, from the same definition of the value that the emitted node binds to that name; references are rebuilt after a '
+                   're-assignment (coercion / widening) of that value', 35)
+    ctx.rule('R9', 'a Ref built for a bound variable carries the same type as the expression that wraps it', 6)
+    ctx.rule('R8', 'python _compute_type and scala typ of the same Table / Matrix IR node denote the same ordered field lists and keys (per component)', 247)
+    ctx.rule('R10', 'the python struct primitives the typing rules are written with (tstruct._concat/_insert_field(s)/_drop_fields/_select_fields/_rename) '
+                    'produce the field ORDER the comparison algebra and the engine assume (own evaluator of the definitions on sample structs)', 6)
+    ctx.assume('R8/R10: TStruct.scala `++`, typeAfterSelect, filterSet, appendKey, structInsert, rename have the ordered semantics of the algebra (read, not re-derived); '
+               'types of value-IR children (typeof(newRow), ...) are atoms common to both sides')
+    ctx.assume('R7: an Expression X and X._ir are identified (X._ir.typ == X.dtype is the property itself, assumed for sub-expressions); cast_expr(e, T) has type T; '
+               'hl.array / hl.set / toStream / toArray keep the element type; a value re-assigned through any other call is a new definition whose type may differ')
+    ctx.assume('R8: inserting a field is compared as appending it (fresh-name assumption: TStruct.appendKey asserts absence, tstruct._insert_field would replace in place)')
+    ctx.assume('R8: TableJoin is only emitted with joinKey == len(left key) == len(right key) (Table.join; the private _join_key parameter is not used in the repository)')
+    ctx.assume('R8: requiredness of fields is not represented by the python types and is not compared; BlockMatrix nodes (shape arithmetic) are not compared')
+    ctx.assume('R8: constructor parameters correspond by camelCased name, else by position')
+    check_binders(ctx, t)
+    check_relational(ctx, t)
